@@ -5,6 +5,8 @@ import (
 	"crypto/ed25519"
 	"errors"
 	"fmt"
+	"io"
+	"sort"
 	"strings"
 
 	biscuit "github.com/biscuit-auth/biscuit-go/v2"
@@ -210,6 +212,10 @@ type hWorld struct {
 	tokBase     [][]string
 	orc         *oracle
 	unm         *biscuit.Unmarshaler // shared by all the reload operations of the history
+	// ONE WithSymbols option value (and one caller-owned table) per base vocabulary, used by every
+	// builder of the history that is issued over that vocabulary
+	symBuilders map[string]func(src io.Reader, rid *uint32) biscuit.Builder
+	symTables   map[string]*datalog.SymbolTable
 }
 
 func newHWorld(rng *RNG, orc *oracle) *hWorld {
@@ -243,12 +249,25 @@ func (w *hWorld) exec(o hOp) (out string, panicked string) {
 		var b biscuit.Builder
 		opts := []interface{}{}
 		_ = opts
-		st := datalog.SymbolTable(append([]string{}, o.Base...))
 		switch {
-		case len(o.Base) > 0 && o.RID != nil:
-			b = biscuit.NewBuilder(w.priv, biscuit.WithRNG(currentSrc), biscuit.WithSymbols(&st), biscuit.WithRootKeyID(*o.RID))
 		case len(o.Base) > 0:
-			b = biscuit.NewBuilder(w.priv, biscuit.WithRNG(currentSrc), biscuit.WithSymbols(&st))
+			key := strings.Join(o.Base, "\x00")
+			if w.symBuilders == nil {
+				w.symBuilders = map[string]func(io.Reader, *uint32) biscuit.Builder{}
+				w.symTables = map[string]*datalog.SymbolTable{}
+			}
+			if w.symBuilders[key] == nil {
+				st := datalog.SymbolTable(append([]string{}, o.Base...))
+				opt := biscuit.WithSymbols(&st)
+				w.symTables[key] = &st
+				w.symBuilders[key] = func(src io.Reader, rid *uint32) biscuit.Builder {
+					if rid != nil {
+						return biscuit.NewBuilder(w.priv, biscuit.WithRNG(src), opt, biscuit.WithRootKeyID(*rid))
+					}
+					return biscuit.NewBuilder(w.priv, biscuit.WithRNG(src), opt)
+				}
+			}
+			b = w.symBuilders[key](currentSrc, o.RID)
 		case o.RID != nil:
 			b = biscuit.NewBuilder(w.priv, biscuit.WithRNG(currentSrc), biscuit.WithRootKeyID(*o.RID))
 		default:
@@ -456,10 +475,15 @@ func genHistoryHooked(rng *RNG, w *hWorld, nOps int, allowRebuild bool, hook fun
 		}
 		return out
 	}
+	var lastBase []string
 	newBuilder := func() {
 		o := hOp{Kind: "newbuilder"}
-		if rng.Chance(25) {
+		if lastBase != nil && rng.Chance(50) {
+			// the same base vocabulary (and the same option value) as an earlier builder
+			o.Base = lastBase
+		} else if rng.Chance(25) {
 			o.Base = []string{"corp", "tenant_x"}[:1+rng.Intn(2)]
+			lastBase = o.Base
 		}
 		if rng.Chance(30) {
 			v := uint32(rng.Intn(4))
@@ -634,6 +658,15 @@ func (w *hWorld) snapshot() []string {
 	}
 	for i, b := range w.blocks {
 		out = append(out, fmt.Sprintf("block %d|%s", i, dBlockCoq(b)))
+	}
+	// the tables the caller handed to WithSymbols stay the caller's
+	var keys []string
+	for k := range w.symTables {
+		keys = append(keys, k)
+	}
+	sort.Strings(keys)
+	for _, k := range keys {
+		out = append(out, fmt.Sprintf("caller table %q|%q", k, []string(*w.symTables[k])))
 	}
 	return out
 }
